@@ -3,6 +3,7 @@ The API operations of gin as one state machine (`step`), and histories of them (
 -/
 import Gin.State
 import Gin.Eval
+import Gin.Statements
 
 namespace Gin
 
@@ -31,6 +32,13 @@ inductive Op where
   | observe (what : String)
   | enter (cur : Scope) (arg : ScopeArg)
   | unlock (body : List Op) (raises : Bool)
+  /-- which (location, reader) serves a file name; `present` lists the pairs that can read it -/
+  | resolve (prefixes readers : List String) (isAbs : Bool) (present : List (String × String))
+  /-- `parse_config` of a text spelling `stmts` (`file = none`: a bindings string) -/
+  | parse (file : Option String) (skip : SkipSpec) (stmts : List Stmt)
+  /-- `parse_config_files_and_bindings` -/
+  | parseFiles (skip : SkipSpec) (files : List (String × Option (List Stmt))) (bindings : List Stmt)
+      (finalizeConfig : Bool)
 deriving Inhabited
 
 inductive Out where
@@ -44,9 +52,12 @@ inductive Out where
   | flag (b : Bool)
   | scope (s : Scope)
   | names (l : List String)
+  | pair (a b : String)
   | body (outs : List Out)
   | events (l : List CallEvent)
   | locs (l : List ((Scope × Sel) × String × Loc))
+  | parsed (includes : List Parsed) (imports : List String)
+  | failed (f : Failure)
 deriving Inhabited
 
 /-- gin's own configurables: `gin.macro(value)`, `gin.constant()`, `gin.singleton(constructor)` -/
@@ -120,6 +131,8 @@ mutual
           | "opstr" => .store (State.printable st.operative)
           | "config" => .store st.config
           | "log" => .events st.log
+          | "imports" => .names st.imports.eraseDups
+          | "curscope" => .scope []   -- operations run outside any `config_scope` block
           | "prov" => .locs (State.provenanceOf st st.config)
           | "opprov" => .locs (State.provenanceOf st st.operative)
           | "registry" => .names (st.registry.keys.map (fun s => ".".intercalate s))
@@ -127,6 +140,20 @@ mutual
           | _ => .err (.other "bad-observe"))
     | .enter cur arg => match enterScope cur arg with
         | some s => (st, .scope s) | none => (st, .err .valueError)
+    | .parse file skip stmts =>
+        let r := parseConfig st file skip stmts
+        (r.st, match r.failure with
+          | some f => .failed f
+          | none => .parsed r.includes r.imports)
+    | .parseFiles skip files bindings fin =>
+        let r := parseFilesAndBindings st skip files bindings fin
+        (r.st, match r.failure with
+          | some f => .failed f
+          | none => .parsed r.includes [])
+    | .resolve prefixes readers isAbs present =>
+        (st, match resolveFile prefixes readers isAbs (fun p r => present.contains (p, r)) with
+          | some (p, r) => .pair p r
+          | none => .failed { err := .ioError, chain := (searchedLocations prefixes isAbs).map (fun l => (some l, 0)) })
     | .unlock body _ =>
         let (st', outs) := runOps { st with locked := false } body
         ({ st' with locked := st.locked }, .body outs)
